@@ -52,6 +52,9 @@ func main() {
 	glvCases(rng.Fork(), rep, cf, &id, o)
 	rep.Note("points of unknown logarithm (Pick/Hash/Embed) carry harness-chosen random logarithms in the model: partitions agree except with probability ~ #points^2/q per program")
 	vh.WriteShards(o.Out, "c01", cf, 15, rep)
+	if !o.Search {
+		slideCases(rng.Fork(), rep, o)
+	}
 	rep.Write(o.Out)
 }
 
